@@ -85,6 +85,8 @@ class RouchonSODE(SIntegrator):
         """
         self.t = t
         self.state = state0
+        # With a measurement record, the increments are `measurement * dt`.
+        self._measurement_noise = getattr(generator, "is_measurement", False)
         if isinstance(generator, Wiener):
             self.wiener = generator
         else:
@@ -118,6 +120,10 @@ class RouchonSODE(SIntegrator):
         if self._issuper:
             self.state = unstack_columns(self.state)
         for dw in dW:
+            if self._measurement_noise:
+                # Recover the Wiener increment, as the other steppers do.
+                for i, op in enumerate(self.cpcds):
+                    dw[i] -= op.expect_data(self.t, self.state).real * dt
             self.state = self._step(self.t, self.state, dt, dw)
             self.t += dt
         if self._issuper:
